@@ -582,6 +582,7 @@ def strip(result, readback=True):
     implementation), identifies the markers of unreadable values, and with readback=False also drops the
     BEFORE{...} AFTER{...} structural read-back (kept: status, mapping, block table, heads, raw cells, symbol table)."""
     line = re.sub(r' iso=[01]', '', result)
+    line = re.sub(r' wf=[01]', '', line)
     line = re.sub(r' E<[^>]*>', '', line)
     line = re.sub(r' U<[01]>', '', line)
     line = MARKER_RE.sub('<?>', line)
@@ -704,6 +705,28 @@ def compare(cases, impl, model):
     return dis, orc, iso
 
 
+def wf_stats(cases, impl, model):
+    """model flag ` wf=1`: the hypotheses of the universal theorems (C19_optimize_preserves / clone_preserves: decidable
+    WF of the store before the call, readable roots) hold.  Returns (records, records with wf=1, wf=1 records the
+    oracle rejects) -- the last list must be empty: the theorem says so for the model, the model agrees with the code."""
+    total, good, bad = 0, 0, []
+    for c in cases:
+        if len(c) > 2 and c[2] == 'run':
+            continue
+        a, b = impl.get(c[1], ''), model.get(c[1], '')
+        for ra, rb in zip(a.split(' || '), b.split(' || ')):
+            m = re.search(r' wf=([01])', rb)
+            if not m:
+                continue
+            total += 1
+            if m.group(1) == '1':
+                good += 1
+                f = oracle_detail(c, ra)
+                if f:
+                    bad.append((c[1], c[2], f))
+    return total, good, bad
+
+
 def run_base_cases():
     from vlib import esc
     return [['OPT', 'run%d.base' % i, 'run', esc(src), inp, 'base'] for i, (src, inp) in enumerate(PROGRAMS)]
@@ -734,6 +757,10 @@ def main():
         impl = vlib.run_impl(cases, 'opt%d' % seed, per_case_s=10.0)
         model = vlib.run_model(cases, 'opt%d' % seed)
         dis, orc, iso = compare(cases, impl, model)
+        wt, wg, wb = wf_stats(cases, impl, model)
+        print('seed %d: %d opt/clone records, %d satisfy the hypotheses of the universal theorems (wf=1), %d of those rejected by the oracle' % (seed, wt, wg, len(wb)))
+        for x in wb[:5]:
+            print('WF-ORACLE', x)
         total += len(cases)
         all_dis += dis; all_orc += orc; all_iso += iso
         print('seed %d: %d cases, %d model disagreements, %d oracle failures, %d iso/oracle mismatches' % (seed, len(cases), len(dis), len(orc), len(iso)))
